@@ -19,8 +19,16 @@ MODES = ["reflect", "lazy", "normalize"]
 
 def gen_case(seed):
     src = SeedSource(seed)
+    from vf.gen import DOMS, G
+
     n = src.pick([1, 1, 1, 2, 3])
-    parts = tuple(gen_expr(src, OPTS, None) for _ in range(n))
+    g = G(src, OPTS)  # one name registry for all parts (fresh names must not clash between parts)
+    parts = []
+    for _ in range(n):
+        d = g.pick(DOMS)
+        depth = g.rint((1, OPTS.max_depth))
+        parts.append(g.expr(d, depth, set(g.sizes)))
+    parts = tuple(parts)
     return {"parts": parts, "mode": src.pick(MODES), "salt": src.pick(range(50))}
 
 
